@@ -283,8 +283,63 @@ def check_dunder(case):
     return want_calls >= 2, ["dunder"]
 
 
+def history_cases(tier, seed):
+    """2-3 calls on the same RetryingClient object: each call must be decided by the configuration alone, never by what
+    earlier calls on the object happened to raise (no state may leak from call to call)"""
+    ncls = 4
+    subs = _subsets(ncls)
+    pairs = [(rf, dn) for rf in subs for dn in subs if not set(rf) & set(dn) and (rf or dn)]
+    short = [(0,), (1, 0), (2, 0), (3, 0), (4, 0), (1,), (2,), (3,), (1, 2, 0), (2, 1, 0), (2, 2)]
+    for rf, dn in pairs:
+        for a in short:
+            for b in short:
+                yield (3, [a, b], rf, dn)
+        for a, b, c in itertools.product(short[1:7], repeat=3):
+            if (len(rf) + len(dn) + a[0] + b[0] + c[0]) % (3 if tier == "quick" else 1) == 0:
+                yield (2, [a, b, c], rf, dn)
+
+
+def check_history(case):
+    attempts, seqs, rf, dn = case
+    kw = {}
+    if rf:
+        kw["retry_for"] = [CLASSES[j] for j in rf]
+    if dn:
+        kw["do_not_retry_for"] = [CLASSES[j] for j in dn]
+    saved = R.sleep
+    sleeps = []
+    R.sleep = sleeps.append
+    try:
+        inner = Inner(())
+        rc = R.RetryingClient(inner, attempts=attempts, retry_delay=0.5, **kw)
+        for ci, seq in enumerate(seqs):
+            seq = tuple(seq)[:attempts] if 0 not in seq[:attempts] else tuple(seq)[:list(seq).index(0) + 1]
+            inner.seq, inner.calls, inner.raised = seq + (0,) * attempts, [], []
+            del sleeps[:]
+            try:
+                r = rc.get("k")
+                got = ("ok",) if r is OKV else ("wrong-value",)
+            except Exception as e:  # noqa: BLE001
+                got = ("exc", [i for i, x in enumerate(inner.raised) if x is e][:1])
+            padded = tuple(seq) + (0,) * attempts
+            want_calls, want, _f = reference(attempts, padded, rf, dn)
+            desc = "call %d of %r on one RetryingClient(attempts=%d, retry_for=%r, do_not_retry_for=%r)" % (
+                ci, [[("ok" if o == 0 else CLASSES[o - 1].__name__) for o in s_] for s_ in seqs], attempts,
+                [CLASSES[j].__name__ for j in rf], [CLASSES[j].__name__ for j in dn])
+            if len(inner.calls) != want_calls:
+                raise Violation(["history-invocations"], "inner invoked %d times, expected %d: %s" % (len(inner.calls), want_calls, desc))
+            if (want[0] == "ok") != (got[0] == "ok"):
+                raise Violation(["history-outcome"], "outcome %r, expected %r: %s" % (got, want, desc))
+            if sleeps != [0.5] * (want_calls - 1):
+                raise Violation(["history-sleeps"], "sleeps %r, expected %r: %s" % (sleeps, [0.5] * (want_calls - 1), desc))
+    finally:
+        R.sleep = saved
+    return True, ["history", "calls=%d" % len(seqs)]
+
+
 PARTS = [
     Part("decision-table", "enum", check, cases=cases, exhaustive=True, distinct_by_construction=True),
     Part("configurations", "enum", check_config, cases=config_cases, shards={"quick": 1, "thorough": 1}, exhaustive=True),
     Part("dunder", "enum", check_dunder, cases=dunder_cases, shards={"quick": 1, "thorough": 1}, exhaustive=True),
+    Part("call-histories", "enum", check_history, cases=history_cases, exhaustive=True, distinct_by_construction=True),
 ]
